@@ -35,6 +35,12 @@ PROP = {
              "arguments, then Items/Get/Put/Marshal/Unmarshal on source AND clones in any interleaving: vs model (clone = filter "
              "into a new object); oracles: every object answers by its own mapping at every point whatever happened to the others, "
              "the keys argument is unchanged, every encoding decodes to its object's mapping. "
+             "(10) lookups through tlb.ProveKeyInHashmap (as a lookup; the proof bytes are C18's) in dictionaries of every key width "
+             "and label mode: stored keys, and ABSENT keys derived from stored keys by changing a bit inside the root label, each "
+             "inner label, the leaf label and each fork bit on the key's path, plus random keys: ('found value) | 'err vs the model "
+             "and vs the mapping; (11) ShardState.AccountBalances over unsplit and split states (left/right halves disjoint or "
+             "arbitrary, right larger than left, accounts without balance, account_none, the same account in both halves), asked "
+             "twice: vs model and vs the accounts dictionaries. "
              "Oracles on the implementation (streams 1-5): decode(encode m) = the pairs in ascending bit "
              "order; equal cells for two insertion orders and for NewHashmap vs Put; duplicate keys rejected; valid foreign "
              "dictionaries decode to their mapping; Get/Put answers and the re-encoded dictionary agree with a reference map; every "
@@ -52,7 +58,9 @@ PROP = {
                     "then to exactly those values: C05_decoder_context_reaches_leaves; leaf counting with the size-only label parser equals the "
                     "number of entries for every valid plain or augmented dictionary with any label forms: C05_count_leafs, "
                     "C05_decode_aug_any_label_form (which also gives the HashmapAugE decode round trip); CloneKeepingSubsetOfKeys is "
-                    "the restriction of the mapping to the requested keys: C05_clone_subset), and the Compare of UintN/IntN/BitsN/AddressWithWorkchain is shown to be such an order "
+                    "the restriction of the mapping to the requested keys: C05_clone_subset; ProveKeyInHashmap returns the mapping's value for "
+                    "every present key and fails for every absent key of the right width: C05_prove_key_lookup_agrees; AccountBalances "
+                    "reports every account under its own key: C05_account_balances), and the Compare of UintN/IntN/BitsN/AddressWithWorkchain is shown to be such an order "
                     "(numeric / two's complement / bytes / uint32(workchain)+bytes = bit order of the 288-bit key). "
                     "coq/Properties/C05_gen.v re-checks on today's source that every key type writes and reads exactly FixedSize() "
                     "bits and compares the way its encoding requires."),
@@ -63,6 +71,8 @@ PROP = {
                     "HashmapAug/HashmapAugE.MarshalTLB fails before touching the slices, so object histories do not apply to them",
                     "two objects built from the same slices alias each other by design of NewHashmap: the history stream only reads through an alias (Put through one alias is visible through the other)",
                     "in the model exotic cells (library, pruned branch) exist only as references inside values (H05 represents them by an impossible 5-reference cell); library or pruned cells as dictionary NODES are not modelled",
+                    "ShardState.AccountBalances is exercised on in-memory states built with the hook VerifNewHashmapAugE (the library cannot encode augmented dictionaries); decoding of augmented dictionaries is covered separately (c05.aug)",
+                    "ProveKeyInHashmap is compared as a lookup on valid dictionaries only (malformed trees and the proof bytes are C18's)",
                     "after a decode ERROR the object's contents are unspecified (partial entries); histories stop comparing there",
                     "keys/values slices of different lengths (possible only through NewHashmap) now return an error; not representable in the model (list of pairs)"],
 }
@@ -75,7 +85,7 @@ META = {
              "dictionary with short/long/same labels per edge decodes to the mapping it represents; Get/Put on a decoded dictionary "
              "then Marshal/Unmarshal agree with lookup/update of the abstract map for every key type (unsigned, signed, bytes, 288-bit "
              "address keys). The extracted model reproduces the implementation's cell trees, decode results and Get/Put answers "
-             "exactly on ~21k (quick) / ~160k (thorough) generated cases incl. malformed dictionaries and multi-step histories on one "
+             "exactly on ~22.5k (quick) / ~171k (thorough) generated cases incl. malformed dictionaries and multi-step histories on one "
              "dictionary object (Marshal must not change what the object answers or how it encodes the next time)."),
     'design_ref': 'DESIGN.md §6 C05, §7 F19',
     'note': ("Three defects repaired in /repo (AddressWithWorkchain.MarshalTLB missing; Hashmap.MarshalTLB depended on slice order; "
